@@ -123,11 +123,14 @@ func nonMatchingLevel(r *mrand.Rand, p *world.Platform) (world.Level, bool) {
 // property statements allow.
 func richHonest(r *mrand.Rand) *world.World {
 	p := svnPlatform(r)
-	nrev := []int{0, 0, 1, 5, 50}[r.Intn(5)]
+	nrev := []int{0, 0, 1, 5, 50, 127, 128, 1000}[r.Intn(8)] // also CRLs whose DER needs long-form lengths
 	w := world.Honest(r, world.HonestOpts{Shape: honestShape(r), Platform: p, Revoked: nrev})
 
 	// TCB levels: matching UpToDate level at position 0..5, preceded by non-matching ones, followed by anything.
 	pos := r.Intn(6)
+	if r.Intn(8) == 0 {
+		pos = 16 + r.Intn(30) // long level lists
+	}
 	var ls []world.Level
 	for i := 0; i < pos; i++ {
 		if l, ok := nonMatchingLevel(r, p); ok {
@@ -169,8 +172,12 @@ func richHonest(r *mrand.Rand) *world.World {
 		w.Tcb.Mods = mods
 	}
 	if r.Intn(2) == 0 {
-		w.Tcb.Fmspc = strings.ToUpper(w.Tcb.Fmspc)
+		w.Tcb.Fmspc = strings.ToUpper(w.Tcb.Fmspc) // Intel's service writes these hex strings in upper case
 	}
+	if r.Intn(2) == 0 {
+		w.Tcb.PceID = strings.ToUpper(w.Tcb.PceID)
+	}
+	w.Tcb.MrSigner = up(r, w.Tcb.MrSigner)
 	// SEAM attributes under a random mask
 	var mask, val [8]byte
 	r.Read(mask[:])
@@ -207,6 +214,7 @@ func richHonest(r *mrand.Rand) *world.World {
 		ql = append(ql, world.IsvLevel{Isv: 0, Status: pickStatus(r)})
 	}
 	w.Qe.Levels = ql
+	w.Tcb.TimeStyle, w.Qe.TimeStyle = r.Intn(6), r.Intn(6) // any legal RFC 3339 spelling of the same instants
 	w.Resign()
 
 	// five different instants anywhere inside every window (documents: issue-1d .. +30d; certificates: far)
